@@ -151,6 +151,7 @@ def run_rebuild(case):
         for d in sdirs:
             os.makedirs(d)
         cand_bytes = {}
+        written = {}
         names = []
         for ti, tree in enumerate(trees):
             single = bool(tree.get("single"))
@@ -169,7 +170,13 @@ def run_rebuild(case):
                     sd = sdirs[c.get("search", 0) % len(sdirs)]
                     sub = ["k%02d-t%d-f%d" % (k, ti, fi)] + ["deep"] * c.get("depth", 0)
                     data = candidate_bytes(tree, f, c["cls"], k, P)
-                    write_file(os.path.join(sd, *sub, fname), data)
+                    twin = written.get(data) if case.get("hardlink_cands") and data else None
+                    if twin:        # de-duplicated search directory: identical files are hard links of one another
+                        os.makedirs(os.path.join(sd, *sub), exist_ok=True)
+                        os.link(twin, os.path.join(sd, *sub, fname))
+                    else:
+                        write_file(os.path.join(sd, *sub, fname), data)
+                        written[data] = os.path.join(sd, *sub, fname)
                     cand_bytes[(ti, fi, k)] = data
         for u in range(case.get("unrelated", 1)):
             write_file(os.path.join(sdirs[0], "zz-unrelated", "other%d.bin" % u), content("unrelated/%d" % u, 1000 + u))
